@@ -236,8 +236,8 @@ def run(chk):
     quick = chk.quick()
     # shape: all structures; detail: all menus on tiny documents; steps: all step-keyword sequences ('*' / And / But first
     # and after each other) in every container kind below backgrounds of both levels
-    cfgs = ["GherkinDoc_MC_quick.cfg", "GherkinDoc_MC_quick_detail.cfg", "GherkinDoc_MC_quick_steps.cfg"] if quick else \
-           ["GherkinDoc_MC_thorough.cfg", "GherkinDoc_MC_thorough_detail.cfg", "GherkinDoc_MC_thorough_steps.cfg"]
+    cfgs = ["GherkinDoc_MC_quick.cfg", "GherkinDoc_MC_quick_detail.cfg", "GherkinDoc_MC_quick_steps.cfg", "GherkinDoc_MC_quick_extab.cfg"] if quick else \
+           ["GherkinDoc_MC_thorough.cfg", "GherkinDoc_MC_thorough_detail.cfg", "GherkinDoc_MC_thorough_steps.cfg", "GherkinDoc_MC_thorough_extab.cfg"]
     docs = []
     for cfg in cfgs:
         r = chk.tlc("GherkinDoc_MC", cfg, timeout=840, workers=WORKERS, heap="8g")
@@ -284,6 +284,12 @@ def run(chk):
             for s in range(most):
                 t = templates[s % len(templates)]
                 jobs.append((len(docs) + n_sweep, t, lang, s, chk.seed, scratch_root, chk.tier))
+                n_sweep += 1
+        # language census: EVERY supported language at least once through parse_feature(language=) and through parse_file
+        # with a '# language:' header (codes of every shape: xx, xxx, xx-YY, xx-word), also in the quick tier
+        for lang in all_langs:
+            if lang not in langs:
+                jobs.append((len(docs) + n_sweep, templates[n_sweep % len(templates)], lang, 0, chk.seed, scratch_root, chk.tier))
                 n_sweep += 1
         done = run_jobs(jobs, min(WORKERS, 8))
     finally:
